@@ -34,10 +34,14 @@ var judgedDiff = map[string]bool{
 
 var diffBinary = map[string]bool{"math.Copysign": true, "math.Max": true, "math.Min": true, "math.Dim": true, "math.Mod": true, "math.Remainder": true}
 
-func diffProgram(seed uint32, nblocks int, vFn, vBlock int) gjs.Prog {
+func diffProgram(seed uint32, nblocks int, vList [][2]int) gjs.Prog {
 	var b strings.Builder
 	b.WriteString("package main\n\nimport (\n\t\"math\"\n\t\"math/bits\"\n\t\"unicode\"\n)\n\n")
-	fmt.Fprintf(&b, "var seed uint32 = %d\n\nconst nblocks uint32 = %d\nvar vFn, vBlock = %d, %d\n\n", seed, nblocks, vFn, vBlock)
+	fmt.Fprintf(&b, "var seed uint32 = %d\n\nconst nblocks uint32 = %d\n\nvar vList = [][2]int{", seed, nblocks)
+	for _, v := range vList {
+		fmt.Fprintf(&b, "{%d, %d}, ", v[0], v[1])
+	}
+	b.WriteString("}\n\n")
 	b.WriteString(diffProgTemplate)
 	return gjs.Prog{Files: map[string]string{"main.go": b.String()}}
 }
@@ -83,6 +87,10 @@ func classOfBits(u uint64) string {
 	}
 	mag := ""
 	switch {
+	case top < -1024:
+		mag = "<2^-1024" // 1/x overflows
+	case top == -1024:
+		mag = "[2^-1024,2^-1023)"
 	case top < -1022:
 		mag = "subnormal"
 	case top < -1:
@@ -131,7 +139,7 @@ func runDiff(c *core.Ctx, pool *gjs.Pool) {
 	}
 	seed := uint32(c.Seed*2246822519 + 374761393)
 	nblocks := c.Pick(150, 4000)
-	prog := diffProgram(seed, nblocks, -1, 0)
+	prog := diffProgram(seed, nblocks, nil)
 	b := pool.RunBoth(c.Scratch, prog, gjs.Opts{}, 20*time.Minute, true, false)
 	if b.BuildErr != nil {
 		if be, ok := b.BuildErr.(*gjs.BuildError); ok && be.Panic {
@@ -184,62 +192,88 @@ func runDiff(c *core.Ctx, pool *gjs.Pool) {
 		name := all[k[0]]
 		if judgedDiff[name] {
 			judgedBlocks[name]++
-			if judgedBlocks[name] <= 6 {
+			if judgedBlocks[name] <= c.Pick(2, 8) {
 				judged = append(judged, mm{k[0], k[1]})
 			}
 		} else {
 			recorded[name]++
 		}
 	}
-	// second pass: print every input of the differing blocks of judged functions
-	results := make([][]*failure, len(judged))
-	c.ParMap(len(judged), func(i int) {
-		m := judged[i]
-		name := all[m.fi]
-		vp := diffProgram(seed, nblocks, m.fi, m.blk)
-		vb := pool.RunBoth(c.Scratch, vp, gjs.Opts{}, 5*time.Minute, true, false)
+	// second pass: one program prints every input of the differing blocks of judged functions
+	var results []*failure
+	if len(judged) > 0 {
+		var vl [][2]int
+		for _, m := range judged {
+			vl = append(vl, [2]int{m.fi, m.blk})
+		}
+		vp := diffProgram(seed, nblocks, vl)
+		vb := pool.RunBoth(c.Scratch, vp, gjs.Opts{}, 10*time.Minute, true, false)
 		if vb.BuildErr != nil || vb.NativeErr != "" || vb.Native.End != "exit" || len(vb.JS.Lines) != len(vb.Native.Lines) {
-			c.Infra(fmt.Errorf("differential program, verbose pass for %s block %d: build=%v native=%s js lines %d native lines %d", name, m.blk, vb.BuildErr, vb.NativeErr, len(vb.JS.Lines), len(vb.Native.Lines)))
+			c.Infra(fmt.Errorf("differential program, verbose pass: build=%v native=%s js lines %d native lines %d", vb.BuildErr, vb.NativeErr, len(vb.JS.Lines), len(vb.Native.Lines)))
 			return
 		}
+		c.Add("programs", 2)
+		// split into (function, block) segments
+		type seg struct {
+			fi, blk  int
+			nat, jsl []string
+		}
+		var segs []*seg
 		for li := range vb.Native.Lines {
 			nl, jl := vb.Native.Lines[li], vb.JS.Lines[li]
-			if nl == jl {
+			if strings.HasPrefix(nl, "# ") {
+				sg := &seg{}
+				fmt.Sscanf(nl, "# %d %d", &sg.fi, &sg.blk)
+				segs = append(segs, sg)
 				continue
 			}
-			inW := strings.Fields(strings.SplitN(nl, "|", 2)[0])
-			key, call := "diff:"+name, name
-			if strings.HasPrefix(name, "math.") && len(inW) >= 5 {
-				u := func(i int) uint64 {
-					h, _ := strconv.ParseUint(inW[i], 10, 64)
-					l, _ := strconv.ParseUint(inW[i+1], 10, 64)
-					return h<<32 | l
-				}
-				x, y := u(0), u(2)
-				short := strings.TrimPrefix(name, "math.")
-				switch {
-				case diffBinary[name]:
-					key = "math:" + short + ":" + classOfBits(x) + "," + classOfBits(y)
-					call = fmt.Sprintf("%s(%v, %v)", name, math.Float64frombits(x), math.Float64frombits(y))
-				case short == "Ldexp" || short == "IsInf":
-					key = "math:" + short + ":" + classOfBits(x) + ",int"
-					call = fmt.Sprintf("%s(%v, n=%s)", name, math.Float64frombits(x), inW[4])
-				default:
-					key = "math:" + short + ":" + classOfBits(x)
-					call = fmt.Sprintf("%s(%v) [bits %#x]", name, math.Float64frombits(x), x)
-				}
+			if len(segs) == 0 {
+				continue
 			}
-			files := vp.ReplayFiles("prog")
-			files["predicted.txt"] = strings.Join(vb.Native.Lines, "\n") + "\n"
-			files["observed.txt"] = strings.Join(vb.JS.Lines, "\n") + "\n"
-			results[i] = append(results[i], &failure{group: key, keys: []string{key}, files: files,
-				summary: fmt.Sprintf("differential sampling (outside the specification): %s: GopherJS %q, native Go %q (input words | result words; seed %d block %d)", call, strings.TrimSpace(strings.SplitN(jl, "|", 2)[1]), strings.TrimSpace(strings.SplitN(nl, "|", 2)[1]), seed, m.blk)})
+			sg := segs[len(segs)-1]
+			sg.nat = append(sg.nat, nl)
+			sg.jsl = append(sg.jsl, jl)
 		}
-	})
-	for _, rs := range results {
-		for _, f := range rs {
-			col.fail(f)
+		for _, sg := range segs {
+			name, blk := all[sg.fi], sg.blk
+			for li := range sg.nat {
+				nl, jl := sg.nat[li], sg.jsl[li]
+				if nl == jl || !strings.Contains(nl, "|") || !strings.Contains(jl, "|") {
+					continue
+				}
+				inW := strings.Fields(strings.SplitN(nl, "|", 2)[0])
+				key, call := "diff:"+name, name+" on input words "+strings.Join(inW, " ")
+				if strings.HasPrefix(name, "math.") && len(inW) >= 5 {
+					u := func(i int) uint64 {
+						h, _ := strconv.ParseUint(inW[i], 10, 64)
+						l, _ := strconv.ParseUint(inW[i+1], 10, 64)
+						return h<<32 | l
+					}
+					x, y := u(0), u(2)
+					short := strings.TrimPrefix(name, "math.")
+					switch {
+					case diffBinary[name]:
+						key = "math:" + short + ":" + classOfBits(x) + "," + classOfBits(y)
+						call = fmt.Sprintf("%s(%v, %v)", name, math.Float64frombits(x), math.Float64frombits(y))
+					case short == "Ldexp" || short == "IsInf":
+						key = "math:" + short + ":" + classOfBits(x) + ",int"
+						call = fmt.Sprintf("%s(%v, n=%d)", name, math.Float64frombits(x), int32(u32(inW[4])))
+					default:
+						key = "math:" + short + ":" + classOfBits(x)
+						call = fmt.Sprintf("%s(%v) [bits %#x]", name, math.Float64frombits(x), x)
+					}
+				}
+				mini := diffProgram(seed, nblocks, [][2]int{{sg.fi, blk}})
+				files := mini.ReplayFiles("prog")
+				files["predicted.txt"] = strings.Join(sg.nat, "\n") + "\n" // what native Go prints for this block
+				files["scenario.json"] = fmt.Sprintf("{\"function\":%q,\"seed\":%d,\"block\":%d,\"native\":%q,\"gopherjs\":%q}\n", name, seed, blk, nl, jl)
+				results = append(results, &failure{group: key, keys: []string{key}, files: files,
+					summary: fmt.Sprintf("differential sampling (outside the specification): %s: GopherJS %q, native Go %q (result words; seed %d block %d)", call, strings.TrimSpace(strings.SplitN(jl, "|", 2)[1]), strings.TrimSpace(strings.SplitN(nl, "|", 2)[1]), seed, blk)})
+			}
 		}
+	}
+	for _, f := range results {
+		col.fail(f)
 	}
 	info := map[string]any{
 		"label":                              "differential sampling outside the specification (GopherJS vs native Go, digests per function and block of 64 seeded inputs / 1024 runes); only functions of the classes the property lists are judged",
@@ -256,4 +290,9 @@ func runDiff(c *core.Ctx, pool *gjs.Pool) {
 	}
 	c.Set("differential_sampling", info)
 	col.flush(c)
+}
+
+func u32(s string) uint32 {
+	n, _ := strconv.ParseUint(s, 10, 64)
+	return uint32(n)
 }
